@@ -552,6 +552,13 @@ func ruleC04Orchestrator(w *World, r *Report) {
 	const P = "C04"
 	mod := w.Fn(P, "pfcpiface.(*UP4).modifyUP4ForwardingConfiguration")
 	mn := w.FuncName(mod)
+	// a batch is taken as applied only when every update is OK or (for a shared entry) ALREADY_EXISTS;
+	// tolerating NOT_FOUND accepts MODIFY/DELETE of entries the switch does not have
+	allInstrs(mod, func(i ssa.Instruction) {
+		if c, ok := i.(*ssa.Call); ok && staticCallee(c) != nil && staticCallee(c).Name() == "ApplyTableEntries" {
+			statusFilterRule(w, r, "R04.2", mod, c)
+		}
+	})
 	bt := w.Fn(P, "pfcpiface.(*P4rtTranslator).BuildTerminationsTableEntry")
 	bs := w.Fn(P, "pfcpiface.(*P4rtTranslator).BuildSessionsTableEntry")
 	defQFI := w.ConstInt(P, pfcpPkg, "DefaultQFI")
